@@ -574,18 +574,46 @@ pub fn check_balance(
     if consumed != produced {
         let mut diff = consumed.clone();
         value_sub(&mut diff, &produced);
-        let kind = if diff.keys().any(|k| k.is_some()) { "BAL-token" } else { "BAL-lovelace" };
-        rep.violate(
-            "C02",
-            kind,
-            shape_hint.to_string(),
-            format!(
-                "{ctx}: consumed {} != produced+fee {} (difference {})",
-                show_value(&consumed),
-                show_value(&produced),
-                show_value(&diff)
-            ),
-        );
+        let two64: i128 = 1i128 << 64;
+        if let Some(l) = diff.get(&None) {
+            let shape = if l % two64 == 0 && *l < 0 {
+                "lovelace:negative-output-wrapped-mod-2^64"
+            } else if l % two64 == 0 {
+                "lovelace:oversized-output-wrapped-mod-2^64"
+            } else {
+                "lovelace:other"
+            };
+            rep.violate(
+                "C02",
+                "BAL-lovelace",
+                if shape_hint.is_empty() { shape.to_string() } else { shape_hint.to_string() },
+                format!(
+                    "{ctx}: consumed {} != produced+fee {} (difference {})",
+                    show_value(&consumed),
+                    show_value(&produced),
+                    show_value(&diff)
+                ),
+            );
+        }
+        let tok: Vec<i128> = diff.iter().filter(|(k, _)| k.is_some()).map(|(_, v)| *v).collect();
+        if !tok.is_empty() {
+            let shape = if tok.iter().all(|v| *v < 0) {
+                "token:negative-output-dropped"
+            } else {
+                "token:other"
+            };
+            rep.violate(
+                "C02",
+                "BAL-token",
+                if shape_hint.is_empty() { shape.to_string() } else { shape_hint.to_string() },
+                format!(
+                    "{ctx}: consumed {} != produced+fee {} (difference {})",
+                    show_value(&consumed),
+                    show_value(&produced),
+                    show_value(&diff)
+                ),
+            );
+        }
     }
 }
 
@@ -788,23 +816,33 @@ pub fn check_echo(
     if known && (!tx.mints.is_empty() || !tx.burns.is_empty()) {
         want.retain(|_, x| *x != 0);
         let got = crate::txread::mint_value(d);
+        // the compiler sums mints and burns per asset in 64-bit fields
+        let mut agg_overflow = false;
+        for tok in 0..p.tokens.len() {
+            let m: i128 = tx.mints.iter().filter(|m| m.tok == tok).filter_map(|m| q_val(&m.q, args)).sum();
+            let b: i128 = tx.burns.iter().filter(|m| m.tok == tok).filter_map(|m| q_val(&m.q, args)).sum();
+            if m > i64::MAX as i128 || b > (i64::MAX as i128) + 1 {
+                agg_overflow = true;
+            }
+        }
         if got != want {
             rep.violate(
                 "C02",
                 "ECHO-mint",
-                mint_shape(&want),
+                if agg_overflow { "sum-of-amounts-overflows-i64".to_string() } else { mint_shape(&want) },
                 format!("{ctx}: template mints {} but the body's mint field holds {}", show_value(&want), show_value(&got)),
             );
         }
-        // every individual mint/burn quantity must be positive for the ledger field
-        for m in tx.mints.iter().chain(tx.burns.iter()) {
+        // every individual mint/burn quantity must be representable in the ledger field
+        for (m, is_burn) in tx.mints.iter().map(|m| (m, false)).chain(tx.burns.iter().map(|m| (m, true))) {
             if let Some(v) = q_val(&m.q, args) {
-                if v <= 0 || v > i64::MAX as i128 {
+                let max = if is_burn { (i64::MAX as i128) + 1 } else { i64::MAX as i128 };
+                if v <= 0 || v > max {
                     rep.violate(
                         "C02",
                         "ECHO-mint",
                         format!("out-of-range:{}", range_class(v)),
-                        format!("{ctx}: mint/burn quantity {v} cannot be held by the ledger field, yet resolution succeeded"),
+                        format!("{ctx}: {} quantity {v} cannot be held by the ledger field, yet resolution succeeded", if is_burn { "burn" } else { "mint" }),
                     );
                 }
             }
